@@ -29,6 +29,7 @@ DEFAULT_SEED = 20261001
 KNOWN_FINDINGS = os.path.join(VERIF, 'known_findings.json')
 OUT = os.environ.get('VERIF_OUT', VERIF)      # evidence/ and replays/ go here
 RECORD = bool(os.environ.get('VERIF_RECORD_DIGESTS'))
+FAST_REPORT = bool(os.environ.get('VERIF_FAST_REPORT'))
 
 
 def run_seed(verif_seed, prop, i):
@@ -517,6 +518,14 @@ def check(prop, tier, verif_seed, n=None, workers=None, out=sys.stdout):
             execute.WALL_CAP = min(execute.WALL_CAP, 5.0)
             os.environ['VERIF_WALL_CAP'] = str(execute.WALL_CAP)
             budget = 25
+        if FAST_REPORT:
+            # matrix runs over many mutants: report without minimising
+            print('VIOLATION property=%s replay=(not written: '
+                  'VERIF_FAST_REPORT)' % prop, file=out)
+            print('  signature=%s runs=%d first_seed_index=%d' % (
+                sig, len(hits), i), file=out)
+            exit_code = max(exit_code, 1)
+            continue
         history = []
         got = has_signature(spec, sc, sig)
         if got is None:
